@@ -310,35 +310,44 @@ Proof.
   rewrite (enumerate_nthv l i (Pt2 0 0)) by exact Hi. apply (map_nth (fun q => pt2_add q v)).
 Qed.
 
-Theorem rounded_rect_caps_complete (w h r : R) (segments : Z) (center : bool) pts : 0 < r -> 2 * r < w -> 2 * r < h -> (1 <= segments)%Z ->
-  rounded_rect w h r segments center = Some pts -> complete (enumerate pts) /\ complete (rev (enumerate pts)).
+Theorem rounded_rect_fanconv (w h r : R) (segments : Z) (center : bool) pts : 0 < r -> 2 * r < w -> 2 * r < h -> (1 <= segments)%Z ->
+  rounded_rect w h r segments center = Some pts ->
+  (3 <= length pts)%nat /\ fanconv false (enumerate pts) /\ fanconv true (rev (enumerate pts)).
 Proof.
-  intros Hr Hw Hh Hs E. destruct center; [|apply (rr_caps_complete w h r segments Hr Hw Hh Hs pts E)].
+  intros Hr Hw Hh Hs E.
+  assert (Base : forall pts0, rounded_rect w h r segments false = Some pts0 ->
+            (3 <= length pts0)%nat /\ fanconv false (enumerate pts0) /\ fanconv true (rev (enumerate pts0))).
+  { intros pts0 E0. split; [rewrite (len_pts w h r segments Hs pts0 E0); lia|]. split.
+    - split; [apply (rr_fan w h r segments Hr Hw Hh Hs pts0 E0)|apply (rr_locally w h r segments Hr Hw Hh Hs pts0 E0)].
+    - split; [apply (rr_fan_rev w h r segments Hr Hw Hh Hs pts0 E0)|apply (locally_rev false); apply (rr_locally w h r segments Hr Hw Hh Hs pts0 E0)]. }
+  destruct center; [|apply Base; exact E].
   destruct (rounded_rect w h r segments false) as [pts0|] eqn:E0.
   - assert (Hp : pts = pt2s_translate pts0 (Pt2 (- w / 2) (- h / 2))).
     { unfold rounded_rect in E, E0. cbn [nzero nofZ nneg nsub ndiv ntwo NumR] in E, E0.
       destruct (arc (Pt2 0 r) 90 segments); [|discriminate]. destruct (arc (Pt2 r 0) 90 segments); [|discriminate].
       destruct (arc (Pt2 (- 0) (- r)) 90 segments); [|discriminate]. destruct (arc (Pt2 (- r) 0) 90 segments); [|discriminate].
       inversion E. inversion E0. reflexivity. }
-    set (v := Pt2 (- w / 2) (- h / 2)) in *. subst pts.
-    assert (Hlen0 : length pts0 = (4 * S (Z.to_nat segments))%nat) by (apply (len_pts w h r segments Hs pts0 E0)).
-    assert (Hl : (3 <= length (enumerate pts0))%nat) by (rewrite enumerate_length, Hlen0; lia).
+    set (v := Pt2 (- w / 2) (- h / 2)) in *. subst pts. destruct (Base pts0 eq_refl) as (Hl0 & F1 & F2).
     assert (Hlm : length (enumerate (pt2s_translate pts0 v)) = length (enumerate pts0)) by (rewrite !enumerate_length; unfold pt2s_translate; apply map_length).
-    split.
-    + apply (fanconv_complete false); [|rewrite Hlm; exact Hl].
-      apply (fanconv_moved false (enumerate pts0) _ v Hlm).
-      * intros i Hi. rewrite enumerate_length in Hi. apply pt_enum_map. exact Hi.
-      * split; [apply (rr_fan w h r segments Hr Hw Hh Hs pts0 E0)|apply (rr_locally w h r segments Hr Hw Hh Hs pts0 E0)].
-    + apply (fanconv_complete true); [|rewrite rev_length, Hlm; exact Hl].
-      apply (fanconv_moved true (rev (enumerate pts0)) _ v); [rewrite !rev_length; exact Hlm| |].
-      * intros i Hi. rewrite rev_length in Hi. unfold pt_at at 1, nthv. rewrite rev_nth by (rewrite Hlm; exact Hi). rewrite Hlm.
-        unfold pt_at at 1, nthv. rewrite rev_nth by exact Hi.
-        change (snd (nth (length (enumerate pts0) - S i) (enumerate (pt2s_translate pts0 v)) dv)) with (pt_at (enumerate (pt2s_translate pts0 v)) (length (enumerate pts0) - S i)).
-        change (snd (nth (length (enumerate pts0) - S i) (enumerate pts0) dv)) with (pt_at (enumerate pts0) (length (enumerate pts0) - S i)).
-        apply pt_enum_map. rewrite enumerate_length in *. lia.
-      * split; [apply (rr_fan_rev w h r segments Hr Hw Hh Hs pts0 E0)|apply (locally_rev false); apply (rr_locally w h r segments Hr Hw Hh Hs pts0 E0)].
+    split; [unfold pt2s_translate; rewrite map_length; exact Hl0|]. split.
+    + apply (fanconv_moved false (enumerate pts0) _ v Hlm); [|exact F1].
+      intros i Hi. rewrite enumerate_length in Hi. apply pt_enum_map. exact Hi.
+    + apply (fanconv_moved true (rev (enumerate pts0)) _ v); [rewrite !rev_length; exact Hlm| |exact F2].
+      intros i Hi. rewrite rev_length in Hi. unfold pt_at at 1, nthv. rewrite rev_nth by (rewrite Hlm; exact Hi). rewrite Hlm.
+      unfold pt_at at 1, nthv. rewrite rev_nth by exact Hi.
+      change (snd (nth (length (enumerate pts0) - S i) (enumerate (pt2s_translate pts0 v)) dv)) with (pt_at (enumerate (pt2s_translate pts0 v)) (length (enumerate pts0) - S i)).
+      change (snd (nth (length (enumerate pts0) - S i) (enumerate pts0) dv)) with (pt_at (enumerate pts0) (length (enumerate pts0) - S i)).
+      apply pt_enum_map. rewrite enumerate_length in *. lia.
   - exfalso. unfold rounded_rect in E, E0.
     destruct (arc _ _ _); [|discriminate]. destruct (arc _ _ _); [|discriminate]. destruct (arc _ _ _); [|discriminate]. destruct (arc _ _ _); discriminate.
+Qed.
+
+Theorem rounded_rect_caps_complete (w h r : R) (segments : Z) (center : bool) pts : 0 < r -> 2 * r < w -> 2 * r < h -> (1 <= segments)%Z ->
+  rounded_rect w h r segments center = Some pts -> complete (enumerate pts) /\ complete (rev (enumerate pts)).
+Proof.
+  intros Hr Hw Hh Hs E. destruct (rounded_rect_fanconv w h r segments center pts Hr Hw Hh Hs E) as (Hl & F1 & F2). split.
+  - apply (fanconv_complete false); [exact F1|rewrite enumerate_length; exact Hl].
+  - apply (fanconv_complete true); [exact F2|rewrite rev_length, enumerate_length; exact Hl].
 Qed.
 
 (* the extrusion of a rounded rectangle: closed (exact form) and outward, with no hypothesis on the caps *)
